@@ -31,12 +31,17 @@ Mod4(x) == ((x % 4) + 4) % 4
 (* ---------------------------------------------------------------------- *)
 \* scalar argument codes (the driver maps a code to a double; see drv_conic.cpp)
 \*   k : 1 -> 1/2, 2 -> 1, 3 -> 2 (good);  0 -> 0, -1 -> -1, 8 -> +inf, 9 -> NaN (bad)
+\*       4 -> 0.994 (good; used only as the scale an object is BUILT with before SetScale calls: a value that no call writes)
+\*       7 -> the argument is omitted: SetScale(lat), documented "k scale at latitude lat (default 1)"  (SetScale calls only)
 \*   f : 0 -> 0, 1 -> 1/298.257223563, 2 -> -1/150, 3 -> 1/2 (good);  5 -> 1, 6 -> 3/2, 7 -> -inf, 8 -> +inf, 9 -> NaN (bad)
 \*   a : 0 -> 6378137, 1 -> 1 (good);  5 -> 0, 6 -> -1, 8 -> +inf, 9 -> NaN (bad)
 KCodes == {-1, 0, 1, 2, 3, 8, 9}
 FCodes == {0, 1, 2, 3, 5, 6, 7, 8, 9}
 ACodes == {0, 1, 5, 6, 8, 9}
 KGood(kc) == kc \in {1, 2, 3}        \* "k0 is not positive" -> GeographicErr
+KCallCodes == KCodes \cup {7}        \* the k argument of SetScale: a code, or omitted
+KGoodCall(kc) == KGood(kc) \/ kc = 7 \* "(default 1)"
+KObjCodes == {1, 4}                  \* scales of the objects that SetScale is called on
 FGood(fc) == fc \in {0, 1, 2, 3}     \* "(1 - f) a is not positive" -> GeographicErr (f < 1, finite)
 AGood(ac) == ac \in {0, 1}           \* "a is not positive" -> GeographicErr
 KNum(kc) == IF kc = 3 THEN 2 ELSE 1  \* the good scales as rationals KNum/KDen
@@ -47,7 +52,11 @@ KDen(kc) == IF kc = 1 THEN 2 ELSE 1
 \* <<c, 0>> with c an integer degree in -90..90 (sin c, cos c) or a special code
 \*   100 -> (0, 0)   101 -> (1/2, -1/2) negative cosine   102 -> (3/2, 0) |sin| > 1   103 -> (0, 3/2) cos > 1
 \*   104 -> (0.3, 0.4) valid, un-normalised   105 -> (NaN, 1)
-SCBad == {100, 101, 102, 103, 105}
+\*   106 -> (1/2, NaN)   107 -> (NaN, NaN)   108 -> (+inf, 1/2)   109 -> (1/2, +inf)   110 -> (-3/2, 0)   111 -> (1/2, -inf)
+\* Degree latitudes beyond the Eps lattice: p = 999 -> NaN, 998 -> +inf, -998 -> -inf (d = 0): "not in [-90d, 90d]".
+SCBad == {100, 101, 102, 103, 105, 106, 107, 108, 109, 110, 111}
+LatNaN == 999
+LatInf == 998
 EpsBad(P) == P[1] > 90 \/ (P[1] = 90 /\ P[2] > 0) \/ P[1] < -90 \/ (P[1] = -90 /\ P[2] < 0)
 ParKind(ct, P) ==
   IF ct \in {1, 2} THEN (IF EpsBad(P) THEN "bad" ELSE IF P = <<90, 0>> THEN "np" ELSE IF P = <<-90, 0>> THEN "sp" ELSE "in")
@@ -75,12 +84,27 @@ CtorOutcome(c) ==
 \* rescaling exists, and the call must fail; at the pole of a polar LCC it succeeds (k there is CentralScale).
 SetScaleOutcome(fam, pol, lat, kc) ==
   LET np == lat = <<90, 0>>   sp == lat = <<-90, 0>> IN
-  IF ~KGood(kc) \/ EpsBad(lat) THEN "throw"
+  IF ~KGoodCall(kc) \/ EpsBad(lat) THEN "throw"
   ELSE IF fam = "ps" THEN (IF sp THEN "throw" ELSE "ok")
   ELSE IF fam = "alb" THEN (IF np \/ sp THEN "throw" ELSE "ok")
   ELSE IF np THEN (IF pol = "np" THEN "ok" ELSE "throw")
   ELSE IF sp THEN (IF pol = "sp" THEN "ok" ELSE "throw")
   ELSE "ok"
+
+(* The object as a state machine under SetScale.  The scale in force is either the one given to the constructor       *)
+(* (state <<0, 0, 0>>) or the one prescribed by the last SetScale call that did not throw (state <<p, d, kc>>: the scale  *)
+(* at the latitude <<p, d>> is the value of kc).  PolarStereographic.hpp, CentralScale: "the value of k0 used in the      *)
+(* constructor ... unless overridden by SetScale": a call that throws has not overridden anything (the object is exactly *)
+(* as before), a call that returns overrides whatever was in force, so the state depends on the last such call only.     *)
+ScaleCtor == <<0, 0, 0>>
+SetScaleStep(fam, pol, st, call) ==
+  IF SetScaleOutcome(fam, pol, <<call[1], call[2]>>, call[3]) = "ok" THEN call ELSE st
+\* calls: a sequence of <<p, d, kc>>; the state after the first i calls
+RECURSIVE ScaleAfter(_, _, _, _)
+ScaleAfter(fam, pol, calls, i) ==
+  IF i = 0 THEN ScaleCtor ELSE SetScaleStep(fam, pol, ScaleAfter(fam, pol, calls, i - 1), calls[i])
+\* the pole at which an object of the lattice is polar: PS "np" (SetScale "assuming northp = true")
+PolOf(fam, p1, p2) == IF fam = "ps" THEN "np" ELSE IF p1 = 90 /\ p2 = 90 THEN "np" ELSE IF p1 = -90 /\ p2 = -90 THEN "sp" ELSE "no"
 
 (* ---------------------------------------------------------------------- *)
 (* 2. Canonical description (integer-degree parallels, admissible calls)   *)
